@@ -194,6 +194,31 @@ impl Scenario for Twin {
                     self.setup.push(Op::new(Kind::Other, format!("CREATE INDEX ixty ON ty ({})", col)).table("ty"));
                 }
             }
+            if self.mode == Mode::Indexes && self.sw.max_rows_stmt == 5 {
+                // prefix-collision flavour (one run in 6): a composite index whose string key part is a
+                // prefix, rows whose strings agree on that prefix, equal leading values, no NULLs
+                let def = TableDef {
+                    name: "tp".into(),
+                    cols: vec![
+                        ColDef { name: "c0".into(), ty: Ty::Int, not_null: true },
+                        ColDef { name: "c1".into(), ty: Ty::Str(8), not_null: true },
+                        ColDef { name: "c2".into(), ty: Ty::Int, not_null: false },
+                    ],
+                    ..Default::default()
+                };
+                let pool = ["ab", "abd", "abc", "a", "abe", "b", "ba", "aba"];
+                let n = 5 + rng.usize(8);
+                let rows: Vec<Vec<Lit>> = (0..n).map(|_| vec![Lit::Int(rng.range(0, 2)), Lit::Str(rng.pick(&pool).to_string()), Lit::Int(rng.range(0, 5))]).collect();
+                let p = Some(1 + rng.below(2) as u32);
+                let cols = match rng.below(3) {
+                    0 => vec![("c0".to_string(), None, false), ("c1".to_string(), p, false)],
+                    1 => vec![("c1".to_string(), p, false), ("c0".to_string(), None, false)],
+                    _ => vec![("c0".to_string(), None, true), ("c1".to_string(), p, true)],
+                };
+                self.setup.push(Op::create_table(def));
+                self.setup.push(Op::insert("tp", &[], rows));
+                self.setup.push(Op::create_index(IndexDef { name: "ixp".into(), table: "tp".into(), unique: false, cols }));
+            }
             if self.mode == Mode::Backend && self.sw.big_rows > 0 {
                 // deep-tree flavour: string keys give the disk-backed B+ tree its minimum degree, so a few
                 // dozen distinct keys reach height 3 and single-row UPDATEs of the key exercise leaf
